@@ -115,7 +115,8 @@ type choicesCase struct {
 
 func (c *choicesCase) deepCopy() *choicesCase {
 	result := &choicesCase{
-		name: c.name,
+		name:     c.name,
+		elements: map[string]*choicesCaseElement{},
 	}
 	for k, v := range c.elements {
 		result.elements[k] = v.deepCopy()
